@@ -29,13 +29,14 @@ JudgeWr(e) ==
       modelBytes == Encode(c, b.nrs)
       c01 == e.werr = "" /\ SameValue(e.read, c.fmt, c.div, c.tracks)
       c03 == /\ e.werr = "" /\ e.size = Len(e.bytes) /\ e.again
+             /\ e.file = "same"        \* WriteFile onto an existing longer file leaves exactly these bytes (no trailing bytes)
              /\ p.kind = "value" /\ p.canon
              /\ p.fmt = c.fmt /\ p.div = c.div /\ p.tracks = c.tracks
   IN [ok |-> IF e.judge = "c01" THEN c01 ELSE c03,
       info |-> [id |-> e.id, ev |-> "wr", judge |-> e.judge, werr |-> e.werr, read |-> e.read.kind, readmsg |-> e.read.msg,
                 parse |-> IF p.kind = "value" THEN "value" ELSE p.err,
                 canon |-> IF p.kind = "value" THEN p.canon ELSE FALSE,
-                bytesAsModel |-> e.bytes = modelBytes, sizeOk |-> e.size = Len(e.bytes), again |-> e.again,
+                bytesAsModel |-> e.bytes = modelBytes, file |-> e.file, sizeOk |-> e.size = Len(e.bytes), again |-> e.again,
                 expectFmt |-> c.fmt, expectDiv |-> c.div, expectTracks |-> Len(c.tracks)]]
 
 JudgeRd(e) ==
